@@ -69,7 +69,7 @@ var apiTexts = map[string]string{
 	"patchTst":      `[{"op":"add","path":"/w","value":1},{"op":"test","path":"/a/n","value":"no"}]`,
 	"patchNeg":      `[{"op":"add","path":"/1/-1","value":9},{"op":"remove","path":"/-1"}]`,
 	"patchWide":     `[{"op":"replace","path":"/k00","value":{"r":[1,2]}},{"op":"remove","path":"/k39"}]`,
-	"patchDeep":     `[{"op":"add","path":"/d/0/d/0/d/0/d/0/d/0/d/0/leaf/-","value":{"deeper":[{"x":[1]}]}}]`,
+	"patchDeep":     `[{"op":"add","path":"/0/d/0/d/0/d/0/d/0/d/0/d/leaf/-","value":{"deeper":[{"x":[1]}]}}]`,
 	"patchBig":      `[{"op":"add","path":"/n","value":{"big":12345678901234567890123,"e":1e400,"f":1.0}},{"op":"move","from":"/n","path":"/m"},{"op":"test","path":"/m/f","value":1.0}]`,
 	"patchCopyFail": `[{"op":"copy","from":"/a/b","path":"/c1"},{"op":"test","path":"/k","value":"no"}]`,
 	"patchCopyBig":  `[{"op":"copy","from":"/a","path":"/c1"},{"op":"copy","from":"/a","path":"/c2"},{"op":"copy","from":"/a","path":"/c3"}]`,
